@@ -128,5 +128,6 @@ def check_switch_init(E, max_pairs):
 
 
 def run(E, tier):
-    n = 3 if tier == "quick" else 5
-    return [check_compile_lookup(E, n), check_switch_init(E, n if tier == "quick" else 4)]
+    # tables of <= 3 entries are PROVED (contracts/c08_controllers.py, one contract per size); this stand-in is for the sizes beyond
+    n = 4 if tier == "quick" else 5
+    return [check_compile_lookup(E, n), check_switch_init(E, 4)]
